@@ -1,6 +1,8 @@
 package main
 
 import (
+	"fmt"
+	"strconv"
 	"time"
 
 	"github.com/iotaledger/hive.go/ds/priorityqueue"
@@ -21,12 +23,13 @@ func (p prioDesc) CompareTo(o prioDesc) int { return int(o) - int(p) }
 
 const pqPrios = 5
 
-// pqAPI is what both flavours offer.
+// pqAPI is what both flavours offer. rep selects the representation of the priority value
+// (only meaningful for time keys: the same instant as different time.Time values).
 type pqAPI interface {
-	push(id, prio int) (remove func())
+	push(id, prio, rep int) (remove func())
 	peek() (int, bool)
 	pop() (int, bool)
-	popUntil(prio int) []int
+	popUntil(prio, rep int) []int
 	popAll() []int
 	size() int
 	isEmpty() bool
@@ -39,26 +42,62 @@ type pqPlain[P interface {
 	q *priorityqueue.PriorityQueue[int, P]
 }
 
-func (p pqPlain[P]) push(id, prio int) func() { return p.q.Push(id, P(prio)) }
+func (p pqPlain[P]) push(id, prio, _ int) func() { return p.q.Push(id, P(prio)) }
 func (p pqPlain[P]) peek() (int, bool)        { return p.q.Peek() }
 func (p pqPlain[P]) pop() (int, bool)         { return p.q.Pop() }
-func (p pqPlain[P]) popUntil(prio int) []int  { return p.q.PopUntil(P(prio)) }
+func (p pqPlain[P]) popUntil(prio, _ int) []int { return p.q.PopUntil(P(prio)) }
 func (p pqPlain[P]) popAll() []int            { return p.q.PopAll() }
 func (p pqPlain[P]) size() int                { return p.q.Size() }
 func (p pqPlain[P]) isEmpty() bool            { return p.q.IsEmpty() }
 
-var pqEpoch = time.Unix(1_700_000_000, 0)
+// Time keys: priority p is the instant pqNow + p seconds. pqNow carries a monotonic clock
+// reading (time.Now); every instant is handed to the queue in one of pqReps representations
+// that are Equal() but not identical as values: with/without monotonic reading, UTC, fixed
+// zones, Local, rebuilt via time.Unix / time.Date instead of Add. The model works on instants.
+var (
+	pqNow   = time.Now()
+	pqZoneE = time.FixedZone("c12+01", 3600)
+	pqZoneW = time.FixedZone("c12-0530", -(5*3600 + 1800))
+)
+
+const pqReps = 9
+
+func pqInstant(prio, rep int) time.Time {
+	mono := pqNow.Add(time.Duration(prio) * time.Second) // keeps the monotonic reading
+	wall := mono.Round(0)                                // strips it
+	switch rep % pqReps {
+	case 0:
+		return mono
+	case 1:
+		return wall
+	case 2:
+		return wall.UTC()
+	case 3:
+		return wall.In(pqZoneE)
+	case 4:
+		return wall.In(pqZoneW)
+	case 5:
+		return wall.In(time.Local)
+	case 6:
+		return time.Unix(0, wall.UnixNano())
+	case 7:
+		return time.Unix(wall.Unix(), int64(wall.Nanosecond())).UTC()
+	default:
+		u := wall.UTC()
+		return time.Date(u.Year(), u.Month(), u.Day(), u.Hour(), u.Minute(), u.Second(), u.Nanosecond(), time.UTC).In(pqZoneE)
+	}
+}
 
 type pqTimed struct{ q timed.PriorityQueue[int] }
 
-func (p pqTimed) push(id, prio int) func() {
-	p.q.Push(id, pqEpoch.Add(time.Duration(prio)*time.Second))
+func (p pqTimed) push(id, prio, rep int) func() {
+	p.q.Push(id, pqInstant(prio, rep))
 	return nil
 }
 func (p pqTimed) peek() (int, bool) { return p.q.Peek() }
 func (p pqTimed) pop() (int, bool)  { return p.q.Pop() }
-func (p pqTimed) popUntil(prio int) []int {
-	return p.q.PopUntil(pqEpoch.Add(time.Duration(prio) * time.Second))
+func (p pqTimed) popUntil(prio, rep int) []int {
+	return p.q.PopUntil(pqInstant(prio, rep))
 }
 func (p pqTimed) popAll() []int { return p.q.PopAll() }
 func (p pqTimed) size() int     { return p.q.Size() }
@@ -68,6 +107,8 @@ type pqMachine struct {
 	real    pqAPI
 	desc    bool
 	inside  map[int]int // id -> prio
+	reps    map[int]int // id -> representation of its key (time keys)
+	timed   bool
 	handles []func()    // index = id
 	nextID  int
 }
@@ -92,10 +133,10 @@ func (m *pqMachine) minKey() (int, bool) {
 
 func pqTable(handles bool) []opSpec {
 	t := []opSpec{
-		{N: "Push", W: 12, Args: []int{pqPrios}},
+		{N: "Push", W: 12, Args: []int{pqPrios, pqReps}},
 		{N: "Pop", W: 5},
 		{N: "Peek", W: 2},
-		{N: "PopUntil", W: 3, Args: []int{pqPrios}},
+		{N: "PopUntil", W: 3, Args: []int{pqPrios, pqReps}},
 		{N: "PopAll", W: 1},
 	}
 	if handles {
@@ -110,7 +151,7 @@ func init() {
 		configs: []string{"asc", "desc"},
 		table:   func(string) []opSpec { return pqTable(true) },
 		mk: func(cfg string) machine {
-			m := &pqMachine{inside: map[int]int{}, desc: cfg == "desc"}
+			m := &pqMachine{inside: map[int]int{}, reps: map[int]int{}, desc: cfg == "desc"}
 			if m.desc {
 				m.real = pqPlain[prioDesc]{priorityqueue.New[int, prioDesc]()}
 			} else {
@@ -126,7 +167,7 @@ func init() {
 		configs: []string{"asc", "desc", "default"},
 		table:   func(string) []opSpec { return pqTable(false) },
 		mk: func(cfg string) machine {
-			m := &pqMachine{inside: map[int]int{}, desc: cfg != "asc"}
+			m := &pqMachine{inside: map[int]int{}, reps: map[int]int{}, timed: true, desc: cfg != "asc"}
 			switch cfg {
 			case "asc":
 				m.real = pqTimed{timed.NewPriorityQueue[int](true)}
@@ -138,7 +179,7 @@ func init() {
 			return m
 		},
 		replica: true,
-		require: map[string]int{"popuntil_boundary_tie": 300},
+		require: map[string]int{"popuntil_boundary_tie": 300, "popuntil_boundary_equal_instant_other_repr": 1000, "push_equal_instant_other_repr": 3000, "\x00timed_equal_instant_repr_pairs": 72, "\x00timed_key_representations": 9},
 	})
 }
 
@@ -166,9 +207,19 @@ func (m *pqMachine) step(x *hx, o op) {
 	case "Push":
 		id := m.nextID
 		m.nextID++
-		h := m.real.push(id, o.arg(0))
+		if m.timed {
+			x.mark("timed_key_representations", strconv.Itoa(o.arg(1)%pqReps))
+			for other, p := range m.inside {
+				if p == o.arg(0) && m.reps[other]%pqReps != o.arg(1)%pqReps {
+					x.note("push_equal_instant_other_repr")
+					x.mark("timed_equal_instant_repr_pairs", fmt.Sprintf("%d/%d", m.reps[other]%pqReps, o.arg(1)%pqReps))
+				}
+			}
+		}
+		h := m.real.push(id, o.arg(0), o.arg(1))
 		m.handles = append(m.handles, h)
 		m.inside[id] = o.arg(0)
+		m.reps[id] = o.arg(1)
 	case "Remove", "RemoveTwice":
 		if len(m.handles) == 0 {
 			break
@@ -211,15 +262,19 @@ func (m *pqMachine) step(x *hx, o op) {
 	case "PopUntil":
 		bound := m.key(o.arg(0))
 		want := 0
-		for _, p := range m.inside {
+		for id, p := range m.inside {
 			if m.key(p) <= bound {
 				want++
 			}
 			if m.key(p) == bound {
 				x.note("popuntil_boundary_tie")
+				if m.timed && m.reps[id]%pqReps != o.arg(1)%pqReps {
+					x.note("popuntil_boundary_equal_instant_other_repr")
+					x.mark("timed_equal_instant_repr_pairs", fmt.Sprintf("%d/%d", m.reps[id]%pqReps, o.arg(1)%pqReps))
+				}
 			}
 		}
-		res := m.real.popUntil(o.arg(0))
+		res := m.real.popUntil(o.arg(0), o.arg(1))
 		for _, id := range res {
 			if p, in := m.inside[id]; in && m.key(p) > bound {
 				x.failOp("beyond-bound", "PopUntil(%d) returned %d with priority %d (descending=%v)", o.arg(0), id, p, m.desc)
